@@ -277,6 +277,7 @@ class ObservedMechanism:
         before = {
             "census": census(tree),
             "pops": {d.id: pop_snapshot(d) for _, d in tree.all_demes},
+            "n_children": {d.id: len(d.children) for _, d in tree.all_demes},
             "best": {d.id: _brute_best(d) for _, d in tree.all_demes},
             "finished_now": {d.id for d in tree.levels[-2] if len(tree.levels) >= 2 and (not d.is_active) and d.started_at + len(d._history) == tree.metaepoch_count} if len(tree.levels) >= 2 else set(),
         }
